@@ -906,7 +906,7 @@ pub fn replay(ctx: &Ctx, case: &Value) -> Outcome {
                         o.violate(v);
                     }
                 }
-                if !m.opaque[0] && !m.opaque[1] && !m.pull[0] && !m.pull[1] && listing_texts(&m.p[0]) == listing_texts(&m.p[1]) {
+                if !m.pull[0] && !m.pull[1] && listing_texts(&m.p[0]) == listing_texts(&m.p[1]) {
                     let kf = (is_kf16_shape(&m.p[0], m.taint[0]) || is_kf16_shape(&m.p[1], m.taint[1]))
                         && used_of(&m.p[0]) != used_of(&m.p[1]);
                     if !eq_real {
@@ -980,7 +980,7 @@ pub fn replay(ctx: &Ctx, case: &Value) -> Outcome {
                 if p["len"].as_u64() != Some(real.len as u64) {
                     o.diverge(format!("{here}: len of {} is {}, model {}", RN[dst], real.len, p["len"]));
                 }
-                if let Some(e) = p.get("eq").and_then(|e| e.as_bool()) {
+                if let Some(e) = p.get("eq").and_then(|e| e.get("some")).and_then(|e| e.as_bool()) {
                     if e != eq_real && !m.taint[0] && !m.taint[1] {
                         o.diverge(format!("{here}: A == B is {eq_real}, model {e}"));
                     }
@@ -1201,7 +1201,8 @@ impl Recorder {
         true
     }
 
-    fn observe(&mut self, det: Option<bool>) {
+    /// `full` = with the serialized text (the C10 traces observe after every step and do not judge text)
+    fn observe(&mut self, det: Option<bool>, full: bool) {
         let mut ev = json!({"ev": "Obs", "eq": self.m.p[0] == self.m.p[1]});
         let mut frames = vec![];
         for r in 0..2 {
@@ -1210,7 +1211,7 @@ impl Recorder {
             let rebuilt = Program::from_instructions(p.to_instructions());
             frames.push(frames_matched_by_reset(&p));
             ev[RN[r]] = json!({"listing": real.listing, "into": real.into, "used": used_json(&real.used), "len": real.len,
-                "text": real.text.clone().unwrap_or_else(|| "<unprintable>".into()),
+                "text": if full { real.text.clone().unwrap_or_else(|| "<unprintable>".into()) } else { String::new() },
                 "rebuilt_eq": rebuilt == p, "rebuilt_text": rebuilt.to_quil().ok() == real.text});
         }
         ev["reset_frames_same"] = json!(frames[0] == frames[1]);
@@ -1262,7 +1263,7 @@ pub fn drive(ctx: &Ctx) -> Summary {
                         }
                     }
                     if rng.gen_range(0..100) < 8 {
-                        rec.observe(None);
+                        rec.observe(None, true);
                     }
                 }
                 if pid == "C08" {
@@ -1343,7 +1344,7 @@ pub fn drive(ctx: &Ctx) -> Summary {
                         }
                     };
                     if ok {
-                        rec.observe(None);
+                        rec.observe(None, false);
                     }
                 }
             }
@@ -1358,7 +1359,7 @@ pub fn drive(ctx: &Ctx) -> Summary {
         } else {
             None
         };
-        rec.observe(det);
+        rec.observe(det, pid != "C10");
         util::emit(&mut out, &json!({"ev": "reset", "sym": rec.sym.sym_json()}));
         for e in &rec.events {
             util::emit(&mut out, e);
